@@ -110,6 +110,8 @@ def full_expand(p):
 
 
 def mk_notation(r):
+    if r.a[r.i].startswith('#'):
+        return NOTS[int(r.next()[1:])]
     ar = r.int()
     d = build(r.term())
     ch = PC.read_chunks(r)
@@ -193,6 +195,29 @@ def run(line):
             eqs.append((p, build(r.term())))
         res = P.match(eqs)
         return 'NONE' if res is None else showdict(res)
+    if op == 'MSI':
+        p = build(r.term())
+        i = build(r.term())
+        d = {k: build(v) for k, v in r.delta()}
+        res = P.match_single(p, i, d)
+        if res is None:
+            return 'NONE'
+        return '1' if p.instantiate(res) == i else '0'
+    if op == 'MLI':
+        eqs = []
+        for _ in range(r.int()):
+            p = build(r.term())
+            eqs.append((p, build(r.term())))
+        res = P.match(eqs)
+        if res is None:
+            return 'NONE'
+        return '1' if all(p.instantiate(res) == i for p, i in eqs) else '0'
+    if op == 'RT':
+        nt = mk_notation(r)
+        args = [build(t) for t in r.tuple()]
+        app = nt(*args)
+        res = nt.assert_matches(app)
+        return ('1' if nt(*res) == app else '0') + ' ' + tup(res)
     if op == 'NC':
         nt = mk_notation(r)
         args = [build(t) for t in r.tuple()]
